@@ -108,3 +108,43 @@ Example C05_half_tick_beyond_end_not_reported :
   count_binned [0] [(0, 500)] 1001 = [] /\ count_binned [0] [(0, 2)] 1 = [(1, 1%nat); (3, 0%nat)]
   /\ count_binned [0] [(0, 7)] 3 = [(3, 1%nat); (9, 0%nat)] /\ count_binned [0] [(0, 501)] 1001 = [(1001, 1%nat)].
 Proof. vm_compute. intuition congruence. Qed.
+
+(* ====================================================================================================
+   Conservation: the counts of the reported bins of one interval add up to the number of samples of that
+   interval lying before the end of the last reported bin - no sample is counted twice or dropped between bins. *)
+Lemma count_if_split {A} (p q r : A -> bool) l :
+  (forall x, p x = q x || r x) -> (forall x, q x && r x = false) ->
+  count_if p l = (count_if q l + count_if r l)%nat.
+Proof.
+  intros H1 H2. induction l as [|x t IH]; [reflexivity|]. simpl.
+  pose proof (H1 x) as E1. pose proof (H2 x) as E2.
+  destruct (p x), (q x), (r x); simpl in *; try discriminate; lia.
+Qed.
+
+Lemma bins_sum_prefix ts s e b : 0 < b -> forall k,
+  fold_right Nat.add 0%nat (map (fun j => count_if (fun t => inb t (s, e) && in_bin (s + Z.of_nat j * b) b t) ts) (seq 0 k))
+  = count_if (fun t => inb t (s, e) && (t <? s + Z.of_nat k * b)) ts.
+Proof.
+  intros Hb. induction k as [|k IH].
+  - simpl. induction ts as [|t r IHr]; [reflexivity|]. simpl. rewrite <- IHr.
+    unfold inb. cbn [fst snd]. destruct (Z.leb_spec s t), (Z.leb_spec t e), (Z.ltb_spec t (s + 0)); simpl; try reflexivity; lia.
+  - rewrite seq_S, map_app. cbn [map Nat.add].
+    assert (Hs : forall (l1 : list nat) (x : nat), fold_right Nat.add 0%nat (l1 ++ [x]) = (fold_right Nat.add 0%nat l1 + x)%nat).
+    { intros l1 x. induction l1 as [|y l1 IH1]; simpl; lia. }
+    rewrite Hs, IH. symmetry. apply count_if_split; intros t; unfold in_bin, inb; cbn [fst snd];
+      destruct (Z.leb_spec s t), (Z.leb_spec t e), (Z.ltb_spec t (s + Z.of_nat k * b)), (Z.ltb_spec t (s + Z.of_nat (S k) * b)),
+               (Z.leb_spec (s + Z.of_nat k * b) t), (Z.ltb_spec t (s + Z.of_nat k * b + b)); simpl; try reflexivity; lia.
+Qed.
+
+Theorem C05_counts_conserved : forall ts s e b, 0 < b ->
+  fold_right Nat.add 0%nat (map snd (count_spec_interval ts s e b))
+  = count_if (fun t => inb t (s, e) && (t <? s + Z.of_nat (n_reported s e b) * b)) ts.
+Proof.
+  intros ts s e b Hb. unfold count_spec_interval. rewrite map_map. cbn [snd].
+  apply (bins_sum_prefix ts s e b Hb).
+Qed.
+Print Assumptions C05_counts_conserved.
+
+Example C05_counts_conserved_nonvacuous :
+  map snd (count_spec_interval [0; 1; 4; 5; 9; 10] 0 10 4) = [2; 2; 2]%nat /\ n_reported 0 10 4 = 3%nat.
+Proof. vm_compute. split; reflexivity. Qed.
